@@ -68,7 +68,7 @@ type XGraph struct {
 
 // NewXGraph expands the body with graph g (declared in decl of package pkgPath).
 func NewXGraph(p *core.Program, g *cfgq.Graph, info *types.Info, decl ast.Node, pkgPath string) *XGraph {
-	root := &XCtx{G: g, Info: info, Fl: NewFlow(g), Scope: decl, kids: map[*ast.CallExpr]*XCtx{}, calls: map[ast.Node][]*ast.CallExpr{}}
+	root := &XCtx{G: g, Info: info, Fl: NewFlow(g).Inlining(p, info, decl, pkgPath), Scope: decl, kids: map[*ast.CallExpr]*XCtx{}, calls: map[ast.Node][]*ast.CallExpr{}}
 	return &XGraph{P: p, Root: root, PkgPath: pkgPath}
 }
 
@@ -113,7 +113,7 @@ func (x *XGraph) kid(c *XCtx, call *ast.CallExpr, b *cfg.Block, i, k int) *XCtx 
 	if h.Fn != nil {
 		scope = h.Fn.Decl
 	}
-	kc := &XCtx{G: g, Info: h.Info, Fl: NewFlow(g), Scope: scope, Parent: c, Call: call, H: h, Bind: BindCall(call, h.Type, h.Recv, h.Info),
+	kc := &XCtx{G: g, Info: h.Info, Fl: NewFlow(g).Inlining(x.P, h.Info, scope, x.PkgPath), Scope: scope, Parent: c, Call: call, H: h, Bind: BindCall(call, h.Type, h.Recv, h.Info),
 		retB: b, retI: i, retK: k, depth: c.depth + 1, kids: map[*ast.CallExpr]*XCtx{}, calls: map[ast.Node][]*ast.CallExpr{}}
 	c.kids[call] = kc
 	return kc
